@@ -129,6 +129,11 @@ def run_case(work: str, case: dict) -> dict:
         res['cli'].append([' '.join(cmd[1:]), p.returncode, p.stdout[-1500:]])
         if p.returncode != 0:
             res['err'] = 'nnvg exit %d for root %s' % (p.returncode, r)
+        if r == roots[0] and len(roots) > 1:
+            # the tree as the FIRST run leaves it: the other roots were only looked up (--lookup-dir), not generated
+            import shutil
+            shutil.copytree(out, out + '_first')
+            res['outdir_first'] = out + '_first'
     try:
         lctx = LanguageContextBuilder(include_experimental_languages=True).set_target_language('html').create()
         for r in roots:
@@ -137,6 +142,7 @@ def run_case(work: str, case: dict) -> dict:
             tree = build_namespace_tree(types, os.path.join(dsdl, r), out, lctx)
             sexps.append(ns(tree))
         res['site'] = '(site %s)' % ' '.join(sexps)
+        res['site_first'] = '(site %s)' % sexps[0]
         res['disp'] = list(DISP)
         del DISP[:]
     except Exception:  # noqa
